@@ -283,8 +283,8 @@ def redialm(prop, tier, verdict, sample_quick, only=None):
         return 'redialm:%s/kind=%s,loss=%s,park=%s,wpark=%s,during=%s,after=%s' % (what, s.get('kind'), s.get('loss'), s.get('park'), s.get('wpark'), '+'.join(s.get('during') or []) or '-', s.get('after'))
     DIRECTED = ('stalereader', 'latecancel', 'earlyreply')
     def sel(allc, rnd, tier):
-        directed = [c for c in allc if c.get('kind') in DIRECTED]
-        pool = [c for c in allc if c.get('kind') not in DIRECTED and (only is None or only(c))]
+        directed = [c for c in allc if c.get('kind') in DIRECTED] + [c for c in allc if c.get('kind') == 'nestedcall' and prop == 'C02']
+        pool = [c for c in allc if c.get('kind') not in DIRECTED + ('nestedcall',) and (only is None or only(c))]
         if tier == 'thorough' or len(pool) <= sample_quick:
             return directed + pool
         # stratified: one scenario of every (kind, loss, park, caller parked, calls, Close) combination first, the rest at random
